@@ -167,7 +167,7 @@ def gen_sched(rng, n):
     out = []
     for _ in range(n):
         k = rng.weighted([(22, "step"), (12, "rewind"), (6, "print"), (4, "obs"), (14, "exec"), (16, "tf"), (8, "raw"), (4, "blank"), (2, "comment"),
-                          (3, "unknown"), (2, "help"), (1, "eof")])
+                          (3, "unknown"), (2, "help"), (1, "eof"), (2, "sigint")])
         if k in ("step", "rewind", "print", "blank"):
             out.append([k])
         elif k == "obs":
@@ -184,6 +184,8 @@ def gen_sched(rng, n):
             out.append(["unknown", rng.choice(["frobnicate", "Step", "steps", "quit", "exit", "?", "tf2"])])
         elif k == "help":
             out.append(["help", rng.choice(["", "st", "zz"])])
+        elif k == "sigint":
+            out.append(["sigint"])
         else:
             out.append(["eof"])
     return out
@@ -306,6 +308,8 @@ def gen_btcdeb_interactive(rng):
         scn["tabs"] = {}
         for li in range(len(scn["sched"])):
             if rng.chance(25):
+                if scn["sched"][li][0] == "sigint":
+                    continue
                 ln = session.render_item(scn["sched"][li]) or ""
                 scn["tabs"][str(li)] = [rng.weighted([(3, len(ln)), (2, rng.below(len(ln) + 1)), (1, 0)]) for _ in range(rng.range(1, 2))]
     if rng.chance(20):
@@ -547,7 +551,14 @@ def world_of(scn):
     if tool == "btcdeb":
         w = session.build_world(scn, observe=scn.get("observe", False))
         if scn.get("tabs"):
-            w["tabs"] = dict(scn["tabs"])       # no observers in C15 sessions: line index == schedule index
+            # no observers in C15 sessions: line index == schedule index, minus the Ctrl-C items before it
+            shift, m = 0, {}
+            for li, it in enumerate(scn.get("sched", [])):
+                if it[0] == "sigint":
+                    shift += 1
+                elif str(li) in scn["tabs"]:
+                    m[str(li - shift)] = scn["tabs"][str(li)]
+            w["tabs"] = m
         if scn.get("winsize"):
             w["winsize"] = list(scn["winsize"])
         if scn.get("script_on_stdin") and not any(f["kind"] == "STDIN" for f in scn.get("faults", [])):
@@ -581,6 +592,8 @@ def judge(ev, run, scn, flavour="asan"):
     kind, detail = run.classify()
     tool = scn.get("tool", "btcdeb")
     ev.counters["term:" + kind] += 1
+    if kind == "interrupted":
+        return      # the user's Ctrl-C ended the session (no handler installed): a legitimate end
     if kind in ("return", "exit"):
         # bounded liveness: after the user's EOF at the main prompt nothing more is asked
         segs = run.segs[1:]
